@@ -26,7 +26,9 @@ DOC_VERDICTS = ("happy", "LonelyError", "WrongPasswordError", "ServerError", "We
 
 def cases(rng, tier):
     # ... and on the real connection stack (c14.run_real): closed exactly once, nothing after it, a documented verdict
-    return _guided_cases(rng, tier) + _pair_cases(rng, tier) + c14.real_cases(rng, tier)
+    from . import c18
+    errs = [c for c in c18.err_cases(rng, tier) if "closing" in str(c.get("moment", "")) or (c.get("walk") or {}).get("when") == "closing"]
+    return _guided_cases(rng, tier) + _pair_cases(rng, tier) + c14.real_cases(rng, tier) + errs[:60 if tier == "quick" else 2000]
 
 
 def _pair_cases(rng, tier):
@@ -153,6 +155,14 @@ def run_case(case):
         keep = [(sg, m) for sg, m in r.violations
                 if sg.startswith(("get-after-closed", "event-after-closed", "event-twice:closed", "internal", "second-close", "verdict:"))]
         return Result([], [], keep, ["pair"], True, info=r.info)
+    if case.get("kind") == "err":
+        # "close() (or an error)": an exception that reaches Boss.error at any moment — here because the server said something
+        # the client cannot process (C18's error-path family, run on the real client in both API styles) — still
+        # leads to exactly ONE closed notification and nothing after it, also when it falls into a close() under way
+        from . import c18
+        r = c18.run_err(case)
+        keep = [(sg, m) for sg, m in r.violations if sg.startswith(("event-twice:closed", "event-after-closed", "second-close"))]
+        return Result([], [], keep, ["err:" + str(case.get("moment", "walk"))], True, info=r.info)
     if case.get("kind") == "trace":
         return mc.run_trace_case(case, trace_oracle)
     if "ops" in case:
